@@ -463,6 +463,11 @@ func genForm(t *rapid.T, k fkind, depth int) string {
 
 // genDocObject: text of a JSON object for the named type: a few registered names with generated forms plus custom members.
 func genDocObject(t *rapid.T, typ string, depth int) string {
+	return genDocObjectBase(t, typ, depth, nil)
+}
+
+// genDocObjectBase: as genDocObject; the names in base (registered or custom) become members first, with generated forms.
+func genDocObjectBase(t *rapid.T, typ string, depth int, base []string) string {
 	specs := specsOf(typ)
 	max := 6
 	if len(specs) < max {
@@ -490,6 +495,19 @@ func genDocObject(t *rapid.T, typ string, depth int) string {
 		}
 		for i := 0; i < w; i++ {
 			weighted = append(weighted, f)
+		}
+	}
+	for _, name := range base {
+		registered := false
+		for _, f := range specs {
+			if f.name == name {
+				add(name, genForm(t, f.kind, depth))
+				registered = true
+				break
+			}
+		}
+		if !registered && typ != "address" {
+			add(name, jtext(genJSON(t, 2)))
 		}
 	}
 	for i := 0; i < n; i++ {
@@ -543,7 +561,9 @@ func genDecodeCase(t *rapid.T) Case {
 // ---- case -------------------------------------------------------------------------------------------
 
 func genCase(t *rapid.T) Case {
-	switch rapid.SampledFrom([]string{"roundtrip", "roundtrip", "roundtrip", "decode", "decode", "decode", "aes"}).Draw(t, "kind") {
+	switch rapid.SampledFrom([]string{"roundtrip", "roundtrip", "roundtrip", "decode", "decode", "decode", "aes", "seq", "seq"}).Draw(t, "kind") {
+	case "seq":
+		return genSeqCase(t)
 	case "roundtrip":
 		typ := rapid.SampledFrom(claimTypes).Draw(t, "type")
 		return Case{Kind: "roundtrip", Type: typ, Val: genObj(t, typ, 0)}
